@@ -17,6 +17,7 @@ import (
 	"sort"
 	"strconv"
 	"strings"
+	"time"
 
 	"github.com/semihalev/sdns/internal/cache"
 	"github.com/semihalev/sdns/internal/verif/vlib"
@@ -806,8 +807,87 @@ func execSegmap(op string, a []string) vlib.Res {
 		return vlib.Res{Impl: fmt.Sprintf("len=%d", sm.Len()), Oracle: aud(), Tags: tagStr(tags)}
 	case "dump":
 		return vlib.Res{Impl: fmt.Sprintf("count=%d %s", sm.Len(), pairsStr(sortedPairs(t))), Oracle: aud()}
+	case "sweep":
+		if !need(a, 4) || (a[1] != "set" && a[1] != "del") {
+			break
+		}
+		k, v := vlib.AtoU64(a[2]), vlib.AtoU64(a[3])
+		sPool[k] = true
+		return sweepOp("segmap", t, sRef, sPool, vlib.Atoi(a[0]), k,
+			func(cur uint64) bool { return cache.VerifSegIndex(sm, cur) == cache.VerifSegIndex(sm, k) },
+			func() {
+				if a[1] == "set" {
+					sm.Set(k, v)
+					sRef[k] = v
+				} else {
+					sm.Del(k)
+					delete(sRef, k)
+				}
+			})
 	}
 	return vlib.Res{Impl: "bad-op"}
+}
+
+// sweepOp runs one ForEach during which, when the j-th entry is delivered,
+// ONE write lands in another segment (the callback runs under the current
+// segment's read lock, so a write to that same segment is skipped). The
+// property's iterate clause, judged from the reference map alone: every entry
+// that was stored before the sweep and is not the written key must be
+// delivered exactly once with its value; nothing may be delivered that is
+// neither in the map before nor after the write.
+func sweepOp(sub string, t table, ref map[uint64]uint64, pool map[uint64]bool, j int, k uint64,
+	sameSeg func(cur uint64) bool, write func()) vlib.Res {
+	before := make(map[uint64]uint64, len(ref))
+	for kk, vv := range ref {
+		before[kk] = vv
+	}
+	var visited []kv
+	w := "none"
+	i := 0
+	t.ForEach(func(k2, v2 uint64) bool {
+		visited = append(visited, kv{k2, v2})
+		if i == j {
+			if sameSeg(k2) {
+				w = "skipped"
+			} else {
+				write()
+				w = "done"
+			}
+		}
+		i++
+		return true
+	})
+	or := ""
+	seen := map[uint64]int{}
+	for _, e := range visited {
+		seen[e.k]++
+		_, inB := before[e.k]
+		_, inA := ref[e.k]
+		switch {
+		case seen[e.k] > 1 && or == "":
+			or = fail(sub+"/sweep/duplicate", "key=%d delivered twice by one ForEach", e.k)
+		case !inB && !inA && or == "":
+			or = fail(sub+"/sweep/ghost", "key=%d delivered but stored neither before nor after the concurrent write", e.k)
+		}
+	}
+	for _, kk := range sortedKeysU(before) {
+		if kk == k {
+			continue // the written key may or may not be seen
+		}
+		if seen[kk] == 0 && or == "" {
+			or = fail(sub+"/sweep/missed-entry", "key=%d was stored during the whole sweep and never touched, but ForEach did not deliver it (write %s on key %d at entry #%d)", kk, w, k, j)
+		}
+	}
+	for _, e := range visited {
+		if e.k != k && or == "" && before[e.k] != e.v {
+			or = fail(sub+"/sweep/wrong-value", "key=%d delivered with %d, stored %d", e.k, e.v, before[e.k])
+		}
+	}
+	tags := ""
+	if w == "done" {
+		tags = "nt,sweep"
+	}
+	return vlib.Res{Impl: "w=" + w + " " + pairsStr(visited), Oracle: verdict(or, audit(sub, "sweep", t, ref, pool)), Tags: tags}
 }
 
 // allSegSlots concatenates the raw slot arrays of all segments separated by
@@ -946,6 +1026,29 @@ func execCache(op string, a []string) vlib.Res {
 		return vlib.Res{Impl: strconv.Itoa(got), Oracle: verdict(or, aud())}
 	case "dump":
 		return vlib.Res{Impl: fmt.Sprintf("count=%d %s", cc.Len(), pairsStr(sortedPairs(t))), Oracle: aud()}
+	case "sweep":
+		if !need(a, 4) || (a[1] != "add" && a[1] != "remove") {
+			break
+		}
+		k, id := vlib.AtoU64(a[2]), vlib.AtoU64(a[3])
+		cPool[k] = true
+		_, present := cRef[k]
+		// an Add that would have to evict is not issued from inside a sweep:
+		// its toll walk may need the very segment the sweep holds
+		blocked := a[1] == "add" && !present && cc.Len() >= cCap
+		return sweepOp("cache", t, cRef, cPool, vlib.Atoi(a[0]), k,
+			func(cur uint64) bool {
+				return blocked || cache.VerifSegIndex(inner, cur) == cache.VerifSegIndex(inner, k)
+			},
+			func() {
+				if a[1] == "add" {
+					cc.Add(k, valFor(id))
+					cRef[k] = id
+				} else {
+					cc.Remove(k)
+					delete(cRef, k)
+				}
+			})
 	}
 	return vlib.Res{Impl: "bad-op"}
 }
@@ -976,20 +1079,28 @@ func limAudit(op string) string {
 
 func execLim(op string, a []string) vlib.Res {
 	if op == "new" {
-		if !need(a, 1) {
+		if len(a) < 1 || len(a) > 2 {
 			return vlib.Res{Impl: "bad-op"}
 		}
 		lMax = vlib.Atoi(a[0])
-		ls = ratelimit.NewLimiterStore(lMax, 10)
+		rate := 10
+		if len(a) == 2 {
+			rate = vlib.Atoi(a[1])
+		}
+		ls = ratelimit.NewLimiterStore(lMax, rate)
 		lRef = map[uint64]bool{}
 		lPend = nil
 		return vlib.Res{Impl: "ok", Oracle: limAudit(op)}
 	}
 	if op == "churn" {
-		if !need(a, 3) {
+		if len(a) != 3 && len(a) != 5 {
 			return vlib.Res{Impl: "bad-op"}
 		}
-		return limChurn(vlib.Atoi(a[0]), vlib.Atoi(a[1]), vlib.AtoU64(a[2]))
+		rate, spend := 10, false
+		if len(a) == 5 {
+			rate, spend = vlib.Atoi(a[3]), a[4] == "t"
+		}
+		return limChurn(vlib.Atoi(a[0]), vlib.Atoi(a[1]), vlib.AtoU64(a[2]), rate, spend)
 	}
 	if ls == nil {
 		return vlib.Res{Impl: "no-table"}
@@ -1005,6 +1116,10 @@ func execLim(op string, a []string) vlib.Res {
 			before[x] = true
 		}
 		l := ls.Get(k)
+		// lastSeen is wall-clock nanoseconds: make sure the next touch gets a
+		// strictly later stamp, so "least recently seen" is never a tie
+		for t0 := time.Now().UnixNano(); time.Now().UnixNano() == t0; {
+		}
 		after := map[uint64]bool{}
 		for _, x := range ratelimit.VerifLimiterKeys(ls) {
 			after[x] = true
@@ -1043,6 +1158,33 @@ func execLim(op string, a []string) vlib.Res {
 			return vlib.Res{Impl: "stale", Oracle: "-"}
 		}
 		return vlib.Res{Impl: fmt.Sprintf("len=%d", ls.Len()), Oracle: limAudit(op)}
+	case "spend", "cookie":
+		// the limiter's own state (an exhausted token bucket, a learnt
+		// cookie) must not matter to the store: neither op changes the key set
+		if !need(a, 1) {
+			break
+		}
+		k := vlib.AtoU64(a[0])
+		if op == "spend" {
+			ratelimit.VerifLimiterSpend(ls, k)
+		} else {
+			ratelimit.VerifLimiterSetCookie(ls, k, "0123456789abcdef")
+		}
+		return vlib.Res{Impl: "ok", Oracle: limAudit(op), Tags: "limstate"}
+	case "cleanup":
+		if !need(a, 1) {
+			break
+		}
+		switch a[0] {
+		case "all": // cutoff in the future: every entry is older
+			ls.Cleanup(-time.Hour)
+			lRef = map[uint64]bool{}
+		case "none": // cutoff an hour back: nothing is that old
+			ls.Cleanup(time.Hour)
+		default:
+			return vlib.Res{Impl: "bad-op"}
+		}
+		return vlib.Res{Impl: fmt.Sprintf("len=%d", ls.Len()), Oracle: limAudit(op)}
 	case "has":
 		if !need(a, 1) {
 			break
@@ -1072,14 +1214,14 @@ func execLim(op string, a []string) vlib.Res {
 // property text alone: the key just written is still stored (present, and a
 // second Get hands back the SAME limiter instead of minting a new bucket),
 // and the store stays within max(maxSize, 1). Which other key goes is free.
-func limChurn(maxSize, fresh int, seed uint64) vlib.Res {
+func limChurn(maxSize, fresh int, seed uint64, rate int, spend bool) vlib.Res {
 	if maxSize > 1<<16 {
 		maxSize = 1 << 16
 	}
 	if fresh > 1<<18 {
 		fresh = 1 << 18
 	}
-	s := ratelimit.NewLimiterStore(maxSize, 10)
+	s := ratelimit.NewLimiterStore(maxSize, rate)
 	r := vlib.NewR(seed)
 	used := map[uint64]bool{}
 	bound := max(maxSize, 1)
@@ -1100,6 +1242,10 @@ func limChurn(maxSize, fresh int, seed uint64) vlib.Res {
 		}
 		used[k] = true
 		l1 := s.Get(k)
+		if spend {
+			// the client spends its whole burst at once: an empty bucket
+			ratelimit.VerifLimiterSpend(s, k)
+		}
 		switch {
 		case l1 == nil:
 			or = fail("lim/churn/wrong-result", "insert #%d: Get(%d) returned nil", i, k)
